@@ -23,8 +23,16 @@ EXPLANATION = (
     "when the directory is immutable and creates children with deep_immutable=not self.is_mutable(); (6) "
     "unknown-cap prefixes: strip_prefix_for_ro strips a prefix only after startswith of the same prefix, keeps "
     "'imm.' only when not deep_immutable, and UnknownNode re-adds / converts prefixes under the matching tests. "
+    "(7) every node class (DirectoryNode, Mutable/Immutable/Literal file nodes, ProhibitedNode, UnknownNode) answers "
+    "is_allowed_in_immutable_directory() exactly as 'not is_mutable()' - for unknown nodes exactly as 'raise_error() "
+    "passes and get_write_uri() is empty' - decided by evaluating the predicate methods' CFGs over every truth "
+    "assignment of their leaf expressions (self-calls inlined, delegation to a wrapped node's predicate taken as that "
+    "node's 'not is_mutable()'); (8) is_mutable() of those classes is a constant agreeing with the declared "
+    "IMutableFileNode/IImmutableFileNode interface, an unconditional refusal, or exactly the wrapped object's "
+    "is_mutable(), never is_readonly() or another capability predicate. "
     "Undecided: JSON and Unicode library behaviour, netstring codec itself (covered by its unit tests), AES.")
-TECHNIQUE = "static analysis: writer/reader table agreement over def-use closures, CFG gate rules, constant folding"
+TECHNIQUE = ("static analysis: writer/reader table agreement over def-use closures, CFG gate rules, constant folding, "
+             "truth-table equivalence of predicate methods")
 
 DN = "dirnode:DirectoryNode"
 PACK = "dirnode:_pack_normalized_children"
@@ -931,8 +939,12 @@ def run(ctx: Context):
             raise AnalysisError("%s.is_mutable() raises for some states only" % k.name)
         return "known"
 
-    def feasible(k, m):
-        """Rows contradicting the declared interface cannot occur (IMutableFileNode: always mutable)."""
+    def feasible(k, m, row):
+        """Rows that cannot occur: contradicting the declared interface (IMutableFileNode: always mutable), or an
+        object that is neither mutable nor read-only (immutable caps carry no write authority)."""
+        for x in row:
+            if x.endswith(".is_mutable()") and not row[x] and row.get(x[:-len("is_mutable()")] + "is_readonly()") is False:
+                return False
         ifs = implemented_interfaces(k)
         if "IMutableFileNode" in ifs and m is False:
             return False
@@ -961,7 +973,7 @@ def run(ctx: Context):
             r.count(len(rows))
             if kind_of(k, rows, 1) == "known":
                 for (row, (a, m)) in rows:
-                    if not feasible(k, m):
+                    if not feasible(k, m, row):
                         continue
                     if a is RAISES:
                         report(fn, "raises", "%s.%s() raises when %s" % (k.name, ALLOWED, show_row(row)))
